@@ -31,10 +31,10 @@ type SMsg struct {
 	Segs       []wsref.Seg `json:"segs,omitempty"`
 	// FragAtFlush: a compressed message is fragmented exactly where its deflate
 	// segments end (block boundaries), instead of by Frags.
-	FragAtFlush bool `json:"frag_at_flush,omitempty"`
-	BFinal     bool        `json:"bfinal,omitempty"`
-	Level      int         `json:"level,omitempty"`
-	KeyMode    string      `json:"keymode,omitempty"` // rand | zero | ff | payload
+	FragAtFlush bool   `json:"frag_at_flush,omitempty"`
+	BFinal      bool   `json:"bfinal,omitempty"`
+	Level       int    `json:"level,omitempty"`
+	KeyMode     string `json:"keymode,omitempty"` // rand | zero | ff | payload
 }
 
 // SClose is the optional close frame ending the stream.
